@@ -99,6 +99,13 @@ def handleDp (ds : List Bytes) (out : List String) : Verdict :=
 
 def handle (args out : List String) : Verdict :=
   match args with
+  -- a query whose socket could not be connected: nothing was exchanged; it must come back with an error, not a panic
+  -- (nor an answer: nobody was asked)
+  | ["qdial", _] =>
+    match out with
+    | ["error"] => .agree
+    | [o] => .disagreeFails (if o.startsWith "panic:" then s!"sig=query-panic {o.take 160}" else s!"sig=query-outcome {o.take 80}")
+    | _ => .bad "C07 qdial shape"
   | [op, _tmo, d] =>
     match dgrams? d with
     | none => .bad "dgrams"
